@@ -23,7 +23,11 @@ bad = 0
 def check(label, lax_rule, strict_rule, value):
     """ parse, re-parse, and validate the output against the same rule with strict constraints """
     global bad
-    out = lax_rule(value)
+    try:
+        out = lax_rule(value)
+    except Exception as e:  # noqa  (a rejected input has no output to re-parse: outside the property)
+        print(f"{label}: {value!r} -> rejected ({str(e).splitlines()[0][:60]})")
+        return
     msg = f"{label}: {value!r} -> {out!r}"
     try:
         again = lax_rule(out)
@@ -96,13 +100,17 @@ class Data(Schema):
     picks: List[int] = Field(length=Lax(3), unique_items=Lax(True))
 
 
-d1 = Data(picks=[1, 1, 2, 3])
-print("Schema:", d1, end=" ")
 try:
-    print("->", Data(**dict(d1)))
-except Exception as e:  # noqa
-    bad += 1
-    print("-> re-parse FAILS:", str(e).splitlines()[0][:80], "  VIOLATION")
+    d1 = Data(picks=[1, 1, 2, 3])
+except Exception as e:  # noqa (rejected: nothing to re-parse)
+    print("Schema: rejected", str(e).splitlines()[0][:80])
+else:
+    print("Schema:", d1, end=" ")
+    try:
+        print("->", Data(**dict(d1)))
+    except Exception as e:  # noqa
+        bad += 1
+        print("-> re-parse FAILS:", str(e).splitlines()[0][:80], "  VIOLATION")
 
 
 # (f) related: the same ordering problem across AllOf (&), where an earlier (strict) condition is not checked again
